@@ -4,10 +4,17 @@
   (`u.low`, `u.high`, `u.var`, `~u`, `target.var`, `target.ite`, `target.true` / `false`) with a
   memo keyed by `int(_flip(u, u))` — the unsigned source node.
 
-  Every `Function` the recursion creates (in either manager) is a temporary that dies before the
-  call returns, except the results; the model therefore works on node numbers and wraps the
-  results at the end (no collection can happen in between: stated for targets whose dynamic
-  reordering is not enabled).
+  Two models:
+  * `xcopyF` / `xcopyBody` / `xcopyList`: the recursion on bare node numbers, the TARGET table as the
+    only state.  It computes what the code computes as long as no collection happens in between
+    (targets whose dynamic reordering is not enabled): the statements of C11 about the FUNCTION
+    copied (DDProps/Api.lean) are about it.
+  * `xcF` / `aXCopyRun` / `aXCopyFromRun`: what `dd.autoref` really does — every intermediate result
+    is a `Function` (a handle with its own reference): `low`, `high`, `g`, the memo's values `r`, the
+    partial results in the target; `~u`, `u.low`, `u.high` in the SOURCE.  They protect their nodes
+    when `target.var` / `target.ite` triggers a reordering (sifting collects garbage), the memo hands
+    out the SAME `Function` for the same unsigned node, and the source's counters go up and down
+    during the call.  `aXCopyTo` / `aXCopyFrom` (what the drivers run) are defined from it.
 -/
 import DD.Auto
 open Std
@@ -64,34 +71,213 @@ def xcopyList (src : Tbl) : List Int → HashMap Nat Int → M (List Int)
       | (.error e, m2) => (.error e, m2)
       | (.ok rs, m2) => (.ok (r :: rs), m2)
 
-/-- `dd._copy.copy_bdd(u, target)` for `Function`s: runs in the target, the source is read -/
+/-! ### the copy as `dd.autoref` runs it: `Function`s in both managers -/
+
+/-- `Function.__del__` of a handle that may already be gone (never raises) -/
+def dropQ (h : Nat) : AM Unit := fun a => (.ok (), (drop h a).2)
+
+/-- state of a copy: the source and the target sessions, the memo `cache` (unsigned source node ↦
+id of the target `Function` stored for it), and — for the correspondence with the code only — the
+source's `_ref` as seen by every call `target.var(...)` -/
+structure XSt where
+  src : AMgr
+  dst : AMgr
+  cache : List (Nat × Nat) := []
+  log : List (List (Nat × Nat)) := []
+
+def XM (α : Type) := XSt → Except Err α × XSt
+
+namespace XM
+@[inline] def pure' (x : α) : XM α := fun st => (.ok x, st)
+@[inline] def bind' (x : XM α) (f : α → XM β) : XM β := fun st =>
+  match x st with
+  | (.ok v, st') => f v st'
+  | (.error e, st') => (.error e, st')
+instance : Monad XM where
+  pure := pure'
+  bind := bind'
+@[inline] def throw (e : Err) : XM α := fun st => (.error e, st)
+@[inline] def get : XM XSt := fun st => (.ok st, st)
+/-- an operation of the SOURCE session -/
+@[inline] def onSrc (x : AM α) : XM α := fun st =>
+  match x st.src with
+  | (r, s') => (r, { st with src := s' })
+/-- an operation of the TARGET session -/
+@[inline] def onDst (x : AM α) : XM α := fun st =>
+  match x st.dst with
+  | (r, d') => (r, { st with dst := d' })
+/-- a new `Function` of the SOURCE made by `x` (its id: one that is not in use); the id is the
+answer -/
+@[inline] def newSrc (x : Nat → AM α) : XM Nat := fun st =>
+  match freshH st.src with
+  | (.error e, _) => (.error e, st)
+  | (.ok t, _) =>
+    match x t st.src with
+    | (.ok _, s') => (.ok t, { st with src := s' })
+    | (.error e, s') => (.error e, { st with src := s' })
+/-- a new `Function` of the TARGET made by `x` -/
+@[inline] def newDst (x : Nat → AM α) : XM Nat := fun st =>
+  match freshH st.dst with
+  | (.error e, _) => (.error e, st)
+  | (.ok t, _) =>
+    match x t st.dst with
+    | (.ok _, d') => (.ok t, { st with dst := d' })
+    | (.error e, d') => (.error e, { st with dst := d' })
+@[inline] def memo (k r : Nat) : XM Unit := fun st => (.ok (), { st with cache := (k, r) :: st.cache })
+@[inline] def logSrc : XM Unit := fun st => (.ok (), { st with log := st.log ++ [st.src.m.ref.toList] })
+end XM
+
+/-- `bdd.true` / `bdd.false`: a new `Function` of the target -/
+def xTerm (b : Bool) : XM (Nat × Bool) := do
+  let t ← XM.newDst (aConst b)
+  pure (t, true)
+
+/-- `_flip(r, u)`: `~ r` (a new `Function`) if `u.negated`, else `r` ITSELF (the memo's object) -/
+def xFlip (c : Nat) (neg : Bool) : XM (Nat × Bool) :=
+  if neg then do
+    let t ← XM.newDst (fApply "not" c none)
+    pure (t, true)
+  else pure (c, false)
+
+/-- `z = _flip(u, u)`: `~ u` — a new `Function` of the SOURCE that lives as long as the frame — if
+`u.negated` -/
+def xZ (hu : Nat) (neg : Bool) : XM (Option Nat) :=
+  if neg then do
+    let z ← XM.newSrc (fApply "not" hu none)
+    pure (some z)
+  else pure none
+
+def xDropOpt : Option Nat → XM Unit
+  | none => pure ()
+  | some z => XM.onSrc (dropQ z)
+
+/-- a local of the frame that dies with it: released only when it is its own object (not the
+memo's) -/
+def xDropIf (owned : Bool) (t : Nat) : XM Unit :=
+  if owned then XM.onDst (dropQ t) else pure ()
+
+/-- `u.low` / `u.high`: a new `Function` of the SOURCE on the stored child; it is the argument of
+the recursive call and dies when that call returns -/
+def xChild (high : Bool) (hu : Nat) : XM Nat := XM.newSrc (fChild high hu)
+
+/-- `_copy._copy_bdd(u, bdd, cache)` over `dd.autoref`: `hu` = the `Function` `u` of the source.
+Returns the id of the resulting target `Function` and whether it is a NEW object (`~ r`,
+`bdd.true`) or the memo's.  (`u == u.bdd.true`: the temporary constant is created and released
+at once, nothing happens in between — not modelled.) -/
+def xcF : Nat → Nat → XM (Nat × Bool)
+  | 0, _ => XM.throw .fuel
+  | fu+1, hu => do
+    let u ← XM.onSrc (nodeOwn hu)
+    if u = 1 then xTerm true else
+    if u = -1 then xTerm false else do
+    let hz ← xZ hu (decide (u < 0))
+    let st ← XM.get
+    match st.cache.lookup u.natAbs with
+    | some c => do
+      let res ← xFlip c (decide (u < 0))
+      xDropOpt hz
+      pure res
+    | none => do
+      let hl ← xChild false hu
+      let low ← xcF fu hl
+      XM.onSrc (dropQ hl)
+      let hh ← xChild true hu
+      let high ← xcF fu hh
+      XM.onSrc (dropQ hh)
+      let name ← XM.onSrc (fVar hu)
+      match name with
+      | none => XM.throw .value
+      | some name => do
+        XM.logSrc
+        let g ← XM.newDst (aVar name)
+        let r ← XM.newDst (aIte g high.1 low.1)
+        XM.memo u.natAbs r
+        let res ← xFlip r (decide (u < 0))
+        -- the frame dies: `z`, `low`, `high`, `g`
+        xDropOpt hz
+        xDropIf low.2 low.1
+        xDropIf high.2 high.1
+        XM.onDst (dropQ g)
+        pure res
+
+/-- `[copy_bdd(u, target, cache) for u in roots]`: one memo, the partial results stay alive -/
+def xcList (fuel : Nat) : List Nat → XM (List (Nat × Bool))
+  | [] => pure []
+  | hu :: rest => do
+    let r ← xcF fuel hu
+    let rs ← xcList fuel rest
+    pure (r :: rs)
+
+def dropKeys : List Nat → AMgr → AMgr
+  | [], a => a
+  | k :: ks, a => dropKeys ks (dropQ k a).2
+
+/-- the `Function`s created since `before` -/
+def newKeys (before after : AMgr) : List Nat :=
+  after.handles.keys.filter fun k => !before.handles.contains k
+
+/-- the call is over (returned or raised, the exception dropped): the memo, the frames and the
+list of results are gone — every `Function` created during the call dies, in both managers -/
+def xCleanup (src0 dst0 : AMgr) (st : XSt) : XSt :=
+  { st with src := dropKeys (newKeys src0 st.src) st.src,
+            dst := dropKeys (newKeys dst0 st.dst) st.dst }
+
+/-- `dd._copy.copy_bdd(u, target)`: the whole run.  The result `Function` gets the id `h` (in the
+code it is the memo's object or `~ r`; here the internal handle is released and `h` created on the
+same node — the same counts). -/
+def aXCopyRun (src dst : AMgr) (hu h : Nat) : Except Err Int × XSt :=
+  match xcF (src.m.nvars + 2) hu { src := src, dst := dst } with
+  | (.error e, st) => (.error e, xCleanup src dst st)
+  | (.ok (t, _), st) =>
+    match st.dst.handles[t]? with
+    | none => (.error .other, xCleanup src dst st)
+    | some r =>
+      match wrapF h r (xCleanup src dst st).dst with
+      | (.ok _, d) => (.ok r, { xCleanup src dst st with dst := d })
+      | (.error e, d) => (.error e, { xCleanup src dst st with dst := d })
+
+/-- `dd._copy.copy_bdd(u, target)` for `Function`s, seen from the target -/
 def aXCopyTo (src : AMgr) (hu : Nat) (h : Nat) : AM Int := fun dst =>
-  match nodeOwn hu src with
-  | (.error e, _) => (.error e, dst)
-  | (.ok u, _) => wrapResult h (xcopyBody src.m.tbl u) dst
+  match aXCopyRun src dst hu h with
+  | (r, st) => (r, st.dst)
 
-def nodesOwn (src : AMgr) : List Nat → Except Err (List Int)
-  | [] => .ok []
-  | h :: hs =>
-    match nodeOwn h src with
-    | (.error e, _) => .error e
-    | (.ok u, _) =>
-      match nodesOwn src hs with
-      | .error e => .error e
-      | .ok us => .ok (u :: us)
+/-- the index of the first earlier result that is the SAME `Function` object -/
+def aliasOf (ts : List Nat) (i : Nat) : Option Nat :=
+  match ts[i]? with
+  | none => none
+  | some t => match ts.idxOf t with
+    | j => if j < i then some j else none
 
-def wrapAll : List (Nat × Int) → AM Unit
-  | [] => pure ()
-  | (h, r) :: rest => do wrap h r; wrapAll rest
+/-- wrap the results that are objects of their own (result `i` gets the id `hs[i]`); an aliased
+result gets no id -/
+def wrapResults (ts : List Nat) : Nat → List Nat → List Int → AM Unit
+  | _, [], _ => pure ()
+  | _, _ :: _, [] => pure ()
+  | i, h :: hs, r :: rs =>
+    (if (aliasOf ts i).isNone then wrapF h r else (pure () : AM Unit)) >>= fun _ =>
+      wrapResults ts (i + 1) hs rs
 
-/-- `dd._copy.copy_bdds_from(roots, target)`; `hs` = the ids of the resulting `Function`s -/
-def aXCopyFrom (src : AMgr) (hus : List Nat) (hs : List Nat) : AM (List Int) := fun dst =>
-  match nodesOwn src hus with
-  | .error e => (.error e, dst)
-  | .ok us =>
-    (do
-      let rs ← AM.liftM (xcopyList src.m.tbl us {})
-      wrapAll (hs.zip rs)
-      pure rs) dst
+/-- the answer: each node with the index of the earlier result it is the same object as -/
+def aliasAnswers (ts : List Nat) : Nat → List Int → List (Int × Option Nat)
+  | _, [] => []
+  | i, r :: rs => (r, aliasOf ts i) :: aliasAnswers ts (i + 1) rs
+
+/-- `dd._copy.copy_bdds_from(roots, target)`: the whole run; `hs` = the ids for the results.  Answer:
+the nodes, and for each result the index of the earlier result it is the same object as -/
+def aXCopyFromRun (src dst : AMgr) (hus hs : List Nat) :
+    Except Err (List (Int × Option Nat)) × XSt :=
+  match xcList (src.m.nvars + 2) hus { src := src, dst := dst } with
+  | (.error e, st) => (.error e, xCleanup src dst st)
+  | (.ok rs, st) =>
+    match (rs.map (·.1)).mapM (fun t => st.dst.handles[t]?) with
+    | none => (.error .other, xCleanup src dst st)
+    | some nodes =>
+      match wrapResults (rs.map (·.1)) 0 hs nodes (xCleanup src dst st).dst with
+      | (.ok _, d) => (.ok (aliasAnswers (rs.map (·.1)) 0 nodes), { xCleanup src dst st with dst := d })
+      | (.error e, d) => (.error e, { xCleanup src dst st with dst := d })
+
+def aXCopyFrom (src : AMgr) (hus : List Nat) (hs : List Nat) : AM (List (Int × Option Nat)) := fun dst =>
+  match aXCopyFromRun src dst hus hs with
+  | (r, st) => (r, st.dst)
 
 end DD
